@@ -348,7 +348,18 @@ def r09g(ctx):
               detail, key_detail="lead-in grid", loc=ctx.loc("pyrex.detector", f))
 
 
+def r09h(ctx):
+    repo = ctx.repo
+    ctx.rule("R09h", "Antenna.receive stores exactly one signal on every normal exit (no early return that drops a hit): the i-th waveform belongs to the i-th receive", expected=1, kind="N")
+    fn = repo.member(A, "receive")
+    cnt = paths.seq(strip_doc(fn), lambda n: is_call(n, name="append", recv="self.signals"))
+    normal = [v for k, v in cnt.items() if k in ("fall", "return")]
+    ctx.check(bool(normal) and all(v == (1, 1) for v in normal), "R09h", f"{A}.receive", "one self.signals.append on every normal path through receive", str(cnt),
+              key_detail="one stored signal per receive", loc=ctx.loc("pyrex.antenna", fn))
+
+
 def run(ctx):
+    ctx.guard(r09h)
     ctx.guard(r09a)
     ctx.guard(r09b)
     ctx.guard(r09c)
@@ -360,6 +371,8 @@ def run(ctx):
 
 SELFTEST = {
     "faults": [
+        {"name": "receive drops signals without amplitude", "file": "pyrex/antenna.py", "old": "        self.signals.append(total_signal)\n",
+         "new": "        if not np.any(total_signal.values):\n            return\n        self.signals.append(total_signal)\n", "rule": "R09h"},
         {"name": "<= in a catch-up loop", "file": "pyrex/antenna.py", "old": "while len(self._all_waves)<len(self.signals):",
          "new": "while len(self._all_waves)<=len(self.signals):", "rule": "R09a", "construct": "Antenna.all_waveforms"},
         {"name": "signals[-1] in a catch-up loop", "file": "pyrex/antenna.py", "old": "self.full_waveform(self.signals[len(self._all_waves)].times)",
